@@ -67,6 +67,7 @@ RelToks(v, e, r, s) ==
   \o (IF v.op = 0 THEN <<>>
       ELSE Opt(s) \o <<P("L_PARENS")>> \o In(s) \o OpToks(v.op, e, r) \o OpV(s)
            \o (IF v.epoch THEN <<Id(e, r, "ver", 0, FALSE), Tk("COLON", e, r, "ver", 0, FALSE), Id(e, r, "ver", 0, FALSE)>>
+                               \o (IF "colon2" \in DOMAIN v THEN <<Tk("COLON", e, r, "ver", 0, FALSE), Id(e, r, "ver", 0, FALSE)>> ELSE <<>>)
                ELSE <<Id(e, r, "ver", 0, FALSE)>>)
            \o In(s) \o <<P("R_PARENS")>>)
   \o (IF ~v.hasArch THEN <<>>
@@ -207,6 +208,11 @@ MCInit ==
   \/ \E v \in { Simple, RV(FALSE, 1, TRUE, FALSE, <<>>, <<>>), RV(TRUE, 0, FALSE, FALSE, <<>>, <<>>) }, w \in FewV, third \in BOOLEAN :
        LET items == IF third THEN <<E2(v, v), E1(w)>> ELSE <<[k |-> "E", vs |-> <<v, w, v>>]>> IN
        InitWith([MkCase(Field(items, 1, DefC, DefP, <<>>, FALSE, <<>>), items, FALSE) EXCEPT !.dup = TRUE])
+  \* a version with an epoch whose upstream part contains a colon ("1:2:3")
+  \/ \E op \in 1..5, s \in 1..3 :
+       LET v == [aq |-> FALSE, op |-> op, epoch |-> TRUE, hasArch |-> FALSE, archs |-> <<>>, profs |-> <<>>, colon2 |-> TRUE]
+           items == <<E1(v), E1(Simple)>> IN
+       InitWith(MkCase(Field(items, s, DefC, DefP, <<>>, FALSE, <<>>), items, FALSE))
   \* five and six alternatives in one entry
   \/ \E v \in FewV, w \in FewV, six \in BOOLEAN, ps \in PipeStyles :
        LET items == << [k |-> "E", vs |-> IF six THEN <<Simple, v, Simple, w, Simple, v>> ELSE <<v, Simple, w, Simple, Simple>>], E1(Simple) >> IN
